@@ -6,6 +6,7 @@ PROP = {
         {"name": "ring_enum", "mode": "enum"},
         {"name": "c_ring", "quick": 1000000, "thorough": 15000000, "maxlen": 640},
         {"name": "cxx_ring", "quick": 1000000, "thorough": 15000000, "maxlen": 640},
+        {"name": "cxx_ring_assign", "quick": 300000, "thorough": 4000000, "maxlen": 64},
         {"name": "cxx_ring_direct", "quick": 400000, "thorough": 6000000, "maxlen": 200},
         {"name": "cyclic", "quick": 500000, "thorough": 8000000, "maxlen": 400},
         {"name": "c_ring_large", "quick": 30000, "thorough": 400000, "maxlen": 3000},
